@@ -5,6 +5,7 @@ import MesaModel.Model.VizInputs
 import MesaModel.Model.VizKwargs
 import MesaModel.Model.VizSize
 import MesaModel.Model.VizCtrl
+import MesaModel.Model.VizNet
 /-!
 Line-protocol driver for the Viz model (C20).  One output line per input line.
 Producer: harness/viz_common.py.
@@ -21,6 +22,8 @@ Producer: harness/viz_common.py.
   collect | collectd COLOR SIZE MARKER ZORDER
   draw | altair | heap | drawc | altairc   (…c: through the solara component)
   drawk K=V …                        draw_space(…, **{K: V}), K ∈ alpha edgecolors linewidths (plotting keyword arguments)
+  drawnet N:X:Y …                    networks: draw_space(…, layout_alg=<callable returning {N: (X, Y), …}>, layout_kwargs={…}, draw_grid=False);
+                                     the markers at their layout positions, `size=` the default size
   sdefault                           the size of the markers of agents whose portrayal names none (`none` without agents)
   drawc0 | altairc0                  the components without a portrayal (their defaults: `{}`, `{"id": unique_id}`)
   layer v…                           property layer `v`: values, x-major (W*H ints);  layern NAME v…: layer NAME
@@ -392,6 +395,29 @@ def stepLine0 (st : St) (ws : List String) : St × String :=
           | .error .attribute => (st, "err Attribute")
           | .error (.raised e) => (st, fmtErr e)
           | .error (.conflict k) => (st, s!"err Value conflict {k}")
+  | "drawnet" :: toks =>
+    withSpace st fun sp =>
+      let parse (t : String) : Option (Int × Loc) :=
+        match t.splitOn ":" with
+        | [n, x, y] => do
+          let n ← n.toInt?
+          let x ← x.toInt?
+          let y ← y.toInt?
+          pure (n, ⟨x, y⟩)
+        | _ => none
+      match toks.mapM parse with
+      | none => (st, "bad-op")
+      | some ly =>
+        if !(sp.fam == .net || sp.fam == .netgrid) || !(ly.map (·.1)).Nodup then (st, "bad-op") else
+        match drawNetwork sp st.heap st.portrayal ly with
+        | .error .value => (st, "err Value")
+        | .error .noPosition => (st, "err Attribute")
+        | .error (.key n) => (st, s!"err Key {n}")
+        | .ok d =>
+          let size := match d.size with
+            | .exact f => fmtFrac f
+            | _ => "?"
+          (st, s!"ok size={size}" ++ ((fmtDraw d.groups).drop 2).toString)
   | ["sdefault"] =>
     withSpace st fun sp =>
       match drawRaises sp with
